@@ -2,6 +2,8 @@ package main
 
 import (
 	"bytes"
+	"crypto/sha256"
+	"encoding/hex"
 	"sync/atomic"
 	"context"
 	"fmt"
@@ -75,8 +77,49 @@ func runSolverCtx(parent context.Context, sp solverSpec, file string, timeoutSec
 	return "error", txt, dt
 }
 
+var cacheDir = os.Getenv("GOVC_CACHE")
+
+func cacheKey(script string) string {
+	h := sha256.Sum256([]byte(script))
+	return hex.EncodeToString(h[:])
+}
+
+// cacheGet returns a cached positive answer (only `unsat` answers to the identical query text are
+// ever cached: the same query has the same answer).
+func cacheGet(script string) *SolveResult {
+	if cacheDir == "" {
+		return nil
+	}
+	data, err := os.ReadFile(filepath.Join(cacheDir, cacheKey(script)))
+	if err != nil {
+		return nil
+	}
+	parts := strings.SplitN(strings.TrimSpace(string(data)), " ", 3)
+	if len(parts) < 2 || parts[0] != "unsat" {
+		return nil
+	}
+	return &SolveResult{Status: "unsat", Solver: parts[1] + " (cached answer to the identical query)", Tried: []string{"cache:unsat"}}
+}
+
+func cachePut(script string, r *SolveResult) {
+	if cacheDir == "" || r.Status != "unsat" {
+		return
+	}
+	os.MkdirAll(cacheDir, 0755)
+	os.WriteFile(filepath.Join(cacheDir, cacheKey(script)), []byte(fmt.Sprintf("unsat %s %.3f\n", r.Solver, r.Seconds)), 0644)
+}
+
 // discharge races the solver portfolio on one obligation script: the first definite answer wins.
 func discharge(script string, file string, timeoutSec int, wantModel bool, order []int) *SolveResult {
+	if c := cacheGet(script); c != nil {
+		return c
+	}
+	r := discharge0(script, file, timeoutSec, wantModel, order)
+	cachePut(script, r)
+	return r
+}
+
+func discharge0(script string, file string, timeoutSec int, wantModel bool, order []int) *SolveResult {
 	if err := os.WriteFile(file, []byte(script), 0644); err != nil {
 		return &SolveResult{Status: "error", Output: err.Error()}
 	}
